@@ -21,7 +21,7 @@ package grpc
 //@ ensures [bad-step-is-an-error] imp(calls(config.ParseShootName) > 0 && result_of(config.ParseShootName, 3) != nil, result1 != nil)
 
 //@ func convertConfigToStep
-//@ props C13 C20
+//@ props C13 C20 C16
 //@ nilsafe
 //@ modifies iterOf
 //@ loop 0 invariant len(preprocessors) == len(req.Preprocessors) && forall(k, 0, rangeidx, preprocessors[k] == req.Preprocessors[k])
@@ -31,7 +31,7 @@ package grpc
 
 // Scenarios are listed weight/gcd times each, in the order of the description.
 //@ func decodeAmmo
-//@ props C13 C20
+//@ props C13 C20 C16
 //@ nilsafe
 //@ requires cfg != nil
 //@ loop 0 invariant callRegistry != nil
